@@ -79,10 +79,15 @@ func BuildComments(path string, fileFilters func(path string) bool) []*astitodo.
 	for index := range files {
 		file := files[index]
 
+		is, err := antlr.NewFileStream(file)
+		if err != nil {
+			// not a readable file, e.g. a directory whose name ends in a selected extension
+			continue
+		}
+
 		displayName := filepath.Base(file)
 		fmt.Println("parse java call: " + displayName)
 
-		is, _ := antlr.NewFileStream(file)
 		lexer := NewCommentLexer(is)
 
 		for _, token := range lexer.GetAllTokens() {
